@@ -852,7 +852,7 @@ func oracle(c core.Case, out []string) []core.Finding {
 			add("harness.panic."+name, "panic while executing "+op+": "+o)
 			continue
 		}
-		_, om := kv("x " + o)
+		om := outFields(o)
 		site := name
 		if name == "step" || name == "prune" {
 			if p := om["prune"]; p != "" && p != "none" && p != "noop" {
@@ -878,6 +878,20 @@ func oracle(c core.Case, out []string) []core.Finding {
 		}
 	}
 	return fs
+}
+
+// outFields splits an OUTPUT line into key=value fields at the FIRST '=' of each token (values such
+// as crash=5:2=1000:noMeta contain '='; the op-line parser kv, which mirrors Tmv.kv, would drop them).
+func outFields(o string) map[string]string {
+	m := map[string]string{}
+	for _, t := range strings.Fields(o) {
+		if i := strings.IndexByte(t, '='); i > 0 {
+			if _, dup := m[t[:i]]; !dup {
+				m[t[:i]] = t[i+1:]
+			}
+		}
+	}
+	return m
 }
 
 func faultOf(v string) string {
